@@ -2244,10 +2244,17 @@ func main() {
 	seed := flag.Int64("seed", 1, "PRNG seed")
 	count := flag.Int("n", 300, "number of e2e scenarios")
 	jobs := flag.Int("j", 16, "scenarios run concurrently")
+	wcut := flag.Int("wcut", 0, "print only this many `wcut` scenarios (produce response cut at byte k, wire level) and exit")
 	flag.Parse()
 	r := rand.New(rand.NewSource(*seed))
 	out := bufio.NewWriterSize(os.Stdout, 1<<20)
 	defer out.Flush()
+	if *wcut > 0 {
+		for i, l := range wcutLines(*seed, *wcut) {
+			fmt.Fprintf(out, "%d %s %s | %s | %s\n", i+1, l.op, l.args, l.res, l.feats)
+		}
+		return
+	}
 
 	var lines []line
 	for i := 0; i < 3**count; i++ {
